@@ -14,10 +14,31 @@ pub struct UniCase {
     /// bit 0 tcp, 1 http, 2 tls, 3 matcher
     pub config: u8,
     pub with_db: bool,
+    /// copies of trace packets behind other 4-byte loopback-style link headers (packet selector, header selector)
+    #[serde(default)]
+    pub reframed: Vec<(u16, u8)>,
 }
+
+/// link headers next to the one the decoders accept (`1e 00 00 00`): BSD AF_INET / AF_INET6 values in both byte orders, one-byte-off variants
+pub const LOOP_HDRS: [[u8; 4]; 8] = [[0x02, 0, 0, 0], [0x18, 0, 0, 0], [0x1c, 0, 0, 0], [0x1e, 0, 0, 0], [0, 0, 0, 0x02], [0x1e, 0x01, 0, 0], [0x1f, 0, 0, 0], [0x00, 0x00, 0, 0]];
 
 pub fn frames_of(c: &UniCase) -> Vec<Packet> {
     let mut pk = c.trace.interleaved();
+    let off = if c.trace.link == crate::gen::frames::Link::Ether { 14 } else { 0 };
+    let n0 = pk.len();
+    for (k, (sel, h)) in c.reframed.iter().enumerate() {
+        if n0 == 0 {
+            break;
+        }
+        let i = (crate::engine::idx(*sel, n0) + k).min(pk.len() - 1);
+        if pk[i].conn == usize::MAX || pk[i].frame.len() <= off {
+            continue;
+        }
+        let mut f = LOOP_HDRS[*h as usize % LOOP_HDRS.len()].to_vec();
+        f.extend_from_slice(&pk[i].frame[off..]);
+        let copy = Packet { conn: usize::MAX, from_client: pk[i].from_client, frame: f, at: pk[i].at, tsval: None, payload_len: 0 };
+        pk.insert(i + 1, copy);
+    }
     for (pos, bytes) in &c.junk {
         let i = crate::engine::idx(*pos, pk.len() + 1);
         pk.insert(i, Packet { conn: usize::MAX, from_client: true, frame: bytes.clone(), at: 1_000_000, tsval: None, payload_len: 0 });
@@ -73,6 +94,22 @@ pub fn check(c: &UniCase, st: &mut Stats) -> Result<(), Fail> {
         let t = if tcp_on { Some(drive::tcp_packet(&p.frame, &mut tracker, use_matcher)) } else { None };
         let h = if http_on { Some(hs.feed(&p.frame, use_matcher)) } else { None };
         let l = if tls_on { Some(tls_stateless(&p.frame)) } else { None };
+        // a frame a protocol analyzer cannot decode is accepted by it and yields no fields (its capture loop emits an empty result);
+        // an analysis error is a rejection
+        let h = h.map(|r| match r {
+            Err(e) if e == "NOT-IP" => Ok(huginn_net_http::HttpAnalysisResult { http_request: None, http_response: None }),
+            other => other,
+        });
+        let l = l.map(|r| match r {
+            Err(e) if e == "NOT-IP" => Ok(None),
+            other => other,
+        });
+        if matches!(t, Some(TcpOut::NotIp)) {
+            st.class("frame-not-decodable-by-the-protocol-analyzers");
+            if !drive::unified_tcp_strs(&u).is_empty() {
+                return Err(fail!("tcp-fields-for-a-frame-the-tcp-analyzer-cannot-decode", "packet {i}: {:?} | frame {}", drive::unified_tcp_strs(&u), truncate(&hex(&p.frame), 120)));
+            }
+        }
         let t_ok = !matches!(t, Some(TcpOut::Err(_)) | Some(TcpOut::NotIp));
         let h_ok = !matches!(h, Some(Err(_)));
         let l_ok = !matches!(l, Some(Err(_)));
@@ -176,16 +213,16 @@ pub fn junk_frame() -> impl Strategy<Value = Vec<u8>> {
 }
 
 pub fn uni_case() -> impl Strategy<Value = UniCase> {
-    (trace::trace_case(4, true), proptest::collection::vec((any::<u16>(), junk_frame()), 0..3), 0u8..16, any::<bool>()).prop_map(|(trace, junk, config, with_db)| UniCase { trace, junk, config, with_db })
+    (trace::trace_case(4, true), proptest::collection::vec((any::<u16>(), junk_frame()), 0..3), 0u8..16, any::<bool>(), proptest::collection::vec((any::<u16>(), any::<u8>()), 0..3)).prop_map(|(trace, junk, config, with_db, reframed)| UniCase { trace, junk, config, with_db, reframed })
 }
 
 pub fn run(ctx: &Ctx) {
     ctx.assume("arrival times are injected through hook H1 so that uptime fields compare deterministically; the reference analyzers keep their own state and see the same packets");
-    ctx.assume("packets rejected by an enabled analyzer are outside the statement (counted as a class); TLS ClientHellos are compared on the packet that carries a complete record (stateless TLS analyzer)");
+    ctx.assume("packets on which an enabled analyzer returns an error are outside the statement (counted as a class); a frame a protocol analyzer cannot decode is accepted by it with no fields; TLS ClientHellos are compared on the packet that carries a complete record (stateless TLS analyzer)");
     let n = ctx.tier.pick(40_000, 600_000);
     ctx.run_prop(
         "traces-x-configs",
-        "proptest traces of 1..4 interleaved connections (handshakes with timestamps, HTTP/1 and HTTP/2 exchanges, ClientHellos, opaque data; Ethernet / raw IP) + 0..2 malformed frames x all 16 combinations of the tcp/http/tls/matcher switches x database present/absent where the constructor allows it; oracle: per packet, huginn_net_tcp / huginn_net_http / stateless huginn_net_tls with their own state and the same database; disabled protocol => fields absent; matcher switch => identical raw signatures, qualities `Disabled`; non-trivial: some packet yields fields in >= 2 protocols and the configuration is not the default",
+        "proptest traces of 1..4 interleaved connections (handshakes with timestamps, HTTP/1 and HTTP/2 exchanges, ClientHellos, opaque data; Ethernet / raw IP) + 0..2 malformed frames + 0..2 copies of trace packets behind 4-byte loopback-style link headers (`02 00 00 00`, `18..`, `1c..`, `1e..`, big-endian, off-by-one) x all 16 combinations of the tcp/http/tls/matcher switches x database present/absent where the constructor allows it; oracle: per packet, huginn_net_tcp / huginn_net_http / stateless huginn_net_tls with their own state and the same database; disabled protocol => fields absent; matcher switch => identical raw signatures, qualities `Disabled`; non-trivial: some packet yields fields in >= 2 protocols and the configuration is not the default",
         n,
         uni_case,
         |c: &UniCase, st: &mut Stats| {
